@@ -178,6 +178,11 @@ func c18Orders(cs *core.Case) (ran bool, sym, det string) {
 	for _, order := range []string{"never", "between", "last", "S-twice"} {
 		items, ser, err, mon := driveOperator(cs, st, order)
 		if (err != nil) != (berr != nil) {
+			// a tied topk keeps a different series from run to run (F12): what fails to
+			// match against it above differs with it
+			if hasK(cs.Q) && kOperandHasTie(cs, st) {
+				continue
+			}
 			return true, "call-order:error", fmt.Sprintf("call order %q: err=%v; Series first: err=%v", order, err, berr)
 		}
 		if s, d := monSymptom(mon); s != "" {
